@@ -213,7 +213,15 @@ where
                     }
                 } else {
                     match (a_row_len, b_row_len) {
-                        (0, 0) => {}
+                        (0, 0) => {
+                            // The empty rows of both arguments get filled
+                            for ((a, b), c) in rows(a, *al, a_row_len)
+                                .zip(rows(b, *bl, b_row_len))
+                                .zip(c.chunks_exact_mut(c_row_len))
+                            {
+                                recur(a, ash, b, bsh, c)?;
+                            }
+                        }
                         (0, _) => {
                             let a = vec![a_fill.unwrap().value.clone(); b_row_len];
                             for (b, c) in
